@@ -117,3 +117,14 @@ chk("C09", "exploration",
     "Python re.fullmatch is the reference for anchored matching on the restricted syntax; derive attributes are compared only when neither a blocklist nor --no-recursive-allowlist is involved (both legitimately change derives).",
     "runtime monitoring: metamorphic allowlisted-vs-full inventories against a generator-side dependency model",
     "DESIGN.md §4 C09")
+
+chk("C10", "exploration",
+    "Generated C type graphs where a random subset of the named records/enums is blocklisted (type or item pattern) or made opaque while "
+    "other records use them as members, array elements and pointees; the harness supplies a blob definition with clang's size/alignment "
+    "for each blocklisted type. The C+Rust probe executable compares sizes/alignments of all records and offsets/values of the "
+    "unaffected ones with C; inventories show that blocklisted names are never defined but still named (and that rustc misses exactly "
+    "those names without the user's definition), that opaque types expose only the blob, and that direct containers of blocklisted types "
+    "derive none of the nine traits.",
+    "Trust as C02. Compile failures that are consequences of recorded C01/C07 findings (packed vs align, opaque types and derives) are counted inconclusive.",
+    "runtime monitoring: differential C<->Rust probes + inventory predicates under blocklist/opaque selections",
+    "DESIGN.md §4 C10")
